@@ -29,7 +29,7 @@ VERIFY_REQS = [
                    'a:API_ID', 'a:H2S', 'a:P1']},
         {'id': 'pairing', 'what': 'pairing check depends on Abar, Bbar, pk', 'gate_callee': ['is_identity', 'PartialEq'],
          'in_fn': ['core_proof_verify'], 'cover': ['self.Abar', 'self.Bbar', 'pk'], 'pure': ['self.Abar', 'self.Bbar', 'pk']},
-        {'id': 'index-range', 'what': 'each disclosed index is compared with U + R', 'gate_op': ['Gt', 'Ge', 'Lt', 'Le'],
+        {'id': 'index-range', 'any_path': True, 'what': 'each disclosed index is compared with U + R', 'gate_op': ['Gt', 'Ge', 'Lt', 'Le'],
          'cover': ['disclosed_indexes', 'len(self.m_cap)', 'len(disclosed_indexes)']},
         {'id': 'count', 'what': 'len(disclosed messages) == len(disclosed indexes)', 'gate_op': ['Ne', 'Eq'],
          'cover': ['len(disclosed_messages)', 'len(disclosed_indexes)']},
@@ -42,7 +42,7 @@ VERIFY_REQS = [
                    'L', 'header', 'ph', 'a:API_ID_BLIND', 'c:b"BLIND_"', 'a:H2S']},
         {'id': 'pairing', 'what': 'pairing check depends on Abar, Bbar, pk', 'gate_callee': ['is_identity', 'PartialEq'],
          'in_fn': ['core_proof_verify'], 'cover': ['self.Abar', 'self.Bbar', 'pk'], 'pure': ['self.Abar', 'self.Bbar', 'pk']},
-        {'id': 'index-range', 'what': 'each (translated) disclosed index is compared with U + R', 'gate_op': ['Gt', 'Ge', 'Lt', 'Le'],
+        {'id': 'index-range', 'any_path': True, 'what': 'each (translated) disclosed index is compared with U + R', 'gate_op': ['Gt', 'Ge', 'Lt', 'Le'],
          'cover': ['disclosed_indexes', 'disclosed_commitment_indexes', 'L', 'len(self.m_cap)']},
     ]),
     (BSIG + 'blind_sign', [
